@@ -16,8 +16,9 @@ import (
 func init() { families["ids"] = idsFamily }
 
 type idStep struct {
-	Explicit int   `json:"explicit"`
-	Shape    []int `json:"shape"`
+	Op       string `json:"op"` // "add" (default) | "remove" (the explicit-th accessory of the container) | "removerefused"
+	Explicit int    `json:"explicit"`
+	Shape    []int  `json:"shape"`
 }
 
 func accessoryBase(obj interface{}) *accessory.Accessory {
@@ -41,7 +42,23 @@ func buildWord(steps []idStep, variant int) (c *accessory.Container, accepted []
 		}
 	}()
 	c = accessory.NewContainer()
+	var refused *accessory.Accessory
 	for k, s := range steps {
+		switch s.Op {
+		case "remove":
+			// the application removes the s.Explicit-th accessory of the container
+			if s.Explicit >= 1 && s.Explicit <= len(accepted) {
+				c.RemoveAccessory(accepted[s.Explicit-1])
+				accepted = append(accepted[:s.Explicit-1:s.Explicit-1], accepted[s.Explicit:]...)
+			}
+			continue
+		case "removerefused":
+			// ... or tidies up after an add that was refused: that accessory is no member
+			if refused != nil {
+				c.RemoveAccessory(refused)
+			}
+			continue
+		}
 		var a *accessory.Accessory
 		info := accessory.Info{Name: fmt.Sprintf("Acc%d", k), ID: uint64(s.Explicit)}
 		if variant >= 0 && len(catAccs) > 0 {
@@ -71,6 +88,8 @@ func buildWord(steps []idStep, variant int) (c *accessory.Container, accepted []
 			accepted = append(accepted, a)
 		} else if s.Explicit == 0 {
 			autorej++ // an accessory with an automatic id was refused
+		} else {
+			refused = a
 		}
 	}
 	return c, accepted, autorej, false
